@@ -112,7 +112,8 @@ func inputMessages(ctxID, reqID []byte) []inputCase {
 		`{"price":"1stake","promotions_by_volume":[{"volume":18446744073709551615,"discount":"0.5"}]}`,
 		`{"price":"1stake","promotions_by_volume":[{"volume":1,"discount":"0.5"},{"volume":1,"discount":"0.4"}]}`,
 		// a "discount" with digits in front of the 0.x the schema asks for (refused by the unmodified schema), in force from year 1 to 9999
-		`{"price":"340282366920938463463374607431768211455stake","promotions_by_time":[{"start_time":"0001-01-01T00:00:00Z","end_time":"9999-12-31T23:59:59Z","discount":"` + strings.Repeat("9", 58) + `0.5"}]}`}
+		`{"price":"1stake","promotions_by_time":[{"start_time":"0001-01-01T00:00:00Z","end_time":"9999-12-31T23:59:59Z","discount":"` + strings.Repeat("9", 58) + `0.5"}]}`,
+		`{"price":"5stake","promotions_by_volume":[{"volume":1,"discount":"` + strings.Repeat("9", 75) + `0.5"}]}`}
 	svcDom := []string{"a", "zz", long70}
 	qosDom := []uint64{1, 3, 4, 1<<64 - 1}
 
